@@ -93,6 +93,36 @@ func famC20(c *hx.Ctx) []*scenario {
 			add(&scenario{name: fmt.Sprintf("pipe-%d-m%d", n, m), mode: m, steps: steps, noSettle: n%2 == 0})
 		}
 	}
+	// one SUBSCRIBE listing the same filter several times (same and different QoS), empty-looking and overlapping filters:
+	// the SUBACK carries one code per requested entry, in request order
+	for i, subs := range [][]packet.Subscription{
+		{{Topic: "a", QOS: 1}, {Topic: "b", QOS: 0}, {Topic: "a", QOS: 1}},
+		{{Topic: "x", QOS: 2}, {Topic: "x", QOS: 2}},
+		{{Topic: "x", QOS: 0}, {Topic: "x", QOS: 1}, {Topic: "x", QOS: 2}, {Topic: "x", QOS: 1}},
+		{{Topic: "#", QOS: 1}, {Topic: "+/+", QOS: 1}, {Topic: "#", QOS: 1}, {Topic: "a/b", QOS: 0}, {Topic: "#", QOS: 0}},
+	} {
+		for _, m := range modes[:2] {
+			add(&scenario{name: fmt.Sprintf("dup-filters-%d-m%d", i, m), mode: m, steps: []step{in(connectPkt(true, nil)),
+				in(&packet.Subscribe{ID: packet.ID(7 + i), Subscriptions: subs}), in(&packet.Unsubscribe{ID: packet.ID(9 + i), Topics: []string{"a", "a", "x"}}), {kind: "ackall"}}})
+		}
+	}
+	// several requests of one kind in flight, acknowledged later and in another order: each reply still carries its own id
+	for i, order := range [][]int{{1, 2, 3}, {3, 2, 1}, {2, 1, 3}, {2, 3, 1}} {
+		for _, kind := range []string{"unsub", "sub", "mixed"} {
+			st := []step{in(connectPkt(true, nil))}
+			for j, id := range []int{11, 22, 33} {
+				if kind == "unsub" || (kind == "mixed" && j%2 == 0) {
+					st = append(st, in(&packet.Unsubscribe{ID: packet.ID(id), Topics: []string{fmt.Sprintf("u%d", j)}}))
+				} else {
+					st = append(st, in(&packet.Subscribe{ID: packet.ID(id), Subscriptions: []packet.Subscription{{Topic: fmt.Sprintf("s%d", j), QOS: packet.QOS(j)}}}))
+				}
+			}
+			for _, k := range order {
+				st = append(st, step{kind: "ack", k: k})
+			}
+			add(&scenario{name: fmt.Sprintf("inflight-%s-%d", kind, i), mode: ackLate, steps: st})
+		}
+	}
 	// more subscribes than subscribe tokens, acknowledged late: the processor waits for a token
 	add(&scenario{name: "sub-tokens", mode: ackLate, ps: 2, steps: []step{in(connectPkt(true, nil)), in(all[9]), in(all[9]), in(all[9]),
 		{kind: "ack", k: 1}, {kind: "ack", k: 2}, {kind: "ack", k: 3}}})
